@@ -448,3 +448,11 @@ for _pid in ("C04", "C06", "C07", "C17", "C18"):
     CHECKS[_pid]["rule"] += (" Plus large geometries: WindowSize 64 KiB..8 MiB (default), buffers of megabytes, literal runs and "
                              "matches of up to 5 MiB (overlapping copies whose doubling passes 1 MiB, offsets beyond 2^16 and 2^20), "
                              "Init again with another geometry, writer faults with megabytes pending; same oracles.")
+
+CHECKS["C13"]["quick"]["tests"].append({"test": "TestC13Enum", "checks": 1, "subchecks": 2363787})
+CHECKS["C13"]["thorough"]["tests"].append({"test": "TestC13Enum", "checks": 1, "subchecks": 9430155, "once": True,
+                                           "env": {"VERIF_C13_H1": "8", "VERIF_C13_H2": "10"}})
+CHECKS["C13"]["rule"] += (" (5) small-scope enumeration: for 9 tiny hash parser configurations (few hash bits, small buckets, "
+                          "hashes over 3-6 bytes) every pair (H1, H2) of strings over {0x00, 'a'} with |H1| <= 7, |H2| <= 9 "
+                          "(8 / 10 in thorough; <= 5 / <= 6 for GSAP and OSAP): a parser that parsed H1 and was Reset emits "
+                          "for H2 what a new parser emits (counted as evaluations, not hashed one by one).")
